@@ -3,7 +3,7 @@
 # (works from /verif or from a `vp run` snapshot: everything is relative to this script)
 ID=$1; PROP=$2; TIER=${3:-quick}; shift; shift; shift
 HERE=$(cd "$(dirname "$0")/.." && pwd)
-WT=/tmp/seedrun_$ID
+WT=${SEED_WT_PREFIX:-/tmp/seedrun}_$ID
 LOGDIR=${SEED_LOGDIR:-/tmp}
 git -C /repo worktree remove --force $WT >/dev/null 2>&1
 git -C /repo worktree add -f --detach $WT HEAD -q || exit 2
